@@ -153,7 +153,7 @@ DEFAULT_NA = "not claimed yet: static checker for this property is still under c
 
 # texts added for the rules built in rounds 2 and 3 (appended to the level text)
 EXTRA_TEXT = {
- "C06": " Added in rounds 2-3: (4) date-time properties are formatted and parsed with the layout the schema demands (RFC3339Nano unless x-goag-go-time-format); (5) every looked-up key is deleted from the shared raw map before a later additionalProperties collector ranges over it (flattened through allOf delegation); (6) a set nullable array is nil-normalised; (7) integers are not decoded through float variables; (8) null tests are exactly string(raw)==\"null\" (truth table over their two atoms); (9) every MarshalJSON has a value receiver.",
+ "C06": " Added in rounds 2-3: (4) date-time properties are formatted and parsed with the layout the schema demands (RFC3339Nano unless x-goag-go-time-format); (5) every looked-up key is deleted from the shared raw map before a later additionalProperties collector ranges over it (flattened through allOf delegation); (6) a set nullable array is nil-normalised; (7) integers are not decoded through float variables; (8) null tests are exactly string(raw)==\"null\" (truth table over their two atoms); (9) every MarshalJSON has a value receiver; (10) fresh-element: decoder loops decode into storage that is fresh per element; the separator writer is judged by an abstract execution of its Write over all input classes.",
  "C07": " Added: the JSON body helper is exactly json.NewEncoder(w).Encode(v); every MarshalJSON has a value receiver; a component that is a bare $ref to another delegates both JSON methods to it.",
  "C13": " Added: fmt.Sprintf with a single %q is accepted as the literal producer; a field-based step in the bytes flow; every parameter of package goag's functions on the generation path is used (no flag silently replaced).",
  "C14": " Added: value-dependent panics of make/Grow/Repeat/MustCompile with a computed argument; func- or interface-typed fields of package structs are nil-tested before they are called unless every in-package construction sets them; bounds inside splitPath and the path-segment extraction are proven by a case-partitioned evaluation (strcut) whatever their spelling; a witness package is flagged on every run.",
@@ -164,7 +164,9 @@ EXTRA_TEXT = {
  "C16": " Added: own-template (the leaf reached for an instance of a declared template returns exactly that template); the middleware loop is recognised by its index progression (revloop) in any spelling.",
  "C03": " The splitter's contract is decided by a case-partitioned evaluation of its body (strcut), not by its spelling.",
  "C05": " The segment extraction is decided by the same case-partitioned evaluation (strcut).",
- "C09": " Added: the client formats date-time parameters with the declared layout.",
+ "C09": " Added: the client formats date-time parameters with the declared layout; a slice stored into the query map is not re-sliced or overwritten afterwards (shared backing array); the URL may be built through strings.Builder, query rows through a local closure, headers through a table of rows (views).",
+ "C04": " Added: fresh-element (every loop that parses the elements of an array parameter parses into storage that is fresh per element).",
+ "C10": " Added: a response-header lookup may index the header map with a constant key exactly when the key is in canonical form (directly or behind a one-expression helper); a raw body handed to the caller is never closed by the client (default arms included).",
  "C01": " Added: fmt-or-error follows formatter wrappers and parameters to their call sites; err-propagation is the failure-flow reading of the driver interpreter (every error-returning call forks, a failed path must end in an error exit), including closures that assign an outer err.",
  "C08": " Added in round 3: fresh-element (every decoder loop decodes into a variable declared in the loop body or reset before the decode, because json.Unmarshal and the generated UnmarshalJSON merge into their target); date-time properties are parsed and re-encoded with the layout the schema demands; alias components are followed to their target's decoder. Witness package flagged on every run.",
  "C20": " Added in round 3: shared-data-read-only (no store, map update, append, copy or in-place library mutation such as slices.Reverse/sort through a reference rooted in the shared API/Client receiver or in a value receiver's data, followed through parameters of in-package callees and closure captures).",
